@@ -283,7 +283,7 @@ def one(rec, hub, seed, tier, i):
         for kw in (dict(), dict(index=False), dict(sparse=True), dict(index=False, sparse=True)) + tuple(dict(dim_to_columns=(s[0] if rng.random() < 0.5 else s[1]), index=bool(rng.integers(0, 2)), **({"sparse": True} if rng.random() < 0.4 else {})) for s in spec if len(s[2]) > 1 and (s[3] is not None or isinstance(s[2][0], str))):
             rec.event(MR, sig=f"rt|{k}|{sorted(kw.items())}|{types}", cls=f"roundtrip|{'wide' if 'dim_to_columns' in kw else 'long'}")
             try:
-                d2 = x.to_df(**kw)
+                d2 = x.to_df(**kw) if rng.random() < 0.7 else x.to_df(kw.get("index", True), kw.get("dim_to_columns"), kw.get("sparse", False))  # also by position
             except Exception:
                 continue  # judged by the to_df oracle
             try:
